@@ -253,6 +253,7 @@ def replay(pid, path):
             dr = lib.run_driver(exe, [w + '/plan.txt', i, 1, w + '/o.ndjson'])
             if dr['rc'] != 0:
                 print('REPLAY driver failure rc=%d %s' % (dr['rc'], dr['stderr'].decode(errors='replace')[-800:]))
+                shutil.rmtree(w, ignore_errors=True)
                 return 1
             o.write(open(w + '/o.ndjson').read())
     if seen:
